@@ -35,27 +35,36 @@ Qed.
 (* fine bins: DFT bin m of recorded coarse channel c, after fftshift + concatenation, sits at global
    index g = c*L + shift L m, and the affine label of g is the coarse-channel centre plus the bin's
    baseband offset -- slope chan_bw / L, for even L *)
-Lemma shift_offset L m : (0 < L)%Z -> (L mod 2 = 0)%Z -> (0 <= m < L)%Z ->
+Lemma shift_offset L m : (0 < L)%Z -> (0 <= m < L)%Z ->
   (shift L m = bin_offset L m + L / 2)%Z /\ (0 <= shift L m < L)%Z.
 Proof.
-  intros HL He Hm. unfold shift, bin_offset.
-  assert (H2 : (L = 2 * (L / 2))%Z) by (pose proof (Z.div_mod L 2 ltac:(lia)); lia).
-  destruct (Z.ltb_spec m (L / 2)).
+  intros HL Hm. unfold shift, bin_offset.
+  pose proof (Z.div_mod L 2 ltac:(lia)) as D. pose proof (Z.mod_pos_bound L 2 ltac:(lia)) as M.
+  pose proof (Z.div_mod (L + 1) 2 ltac:(lia)) as D1. pose proof (Z.mod_pos_bound (L + 1) 2 ltac:(lia)) as M1.
+  destruct (Z.ltb_spec m ((L + 1) / 2)).
   - rewrite Z.mod_small by lia. lia.
-  - replace (m + L / 2)%Z with ((m - L / 2) + 1 * L)%Z by lia.
+  - replace (m + L / 2)%Z with ((m + L / 2 - L) + 1 * L)%Z by lia.
     rewrite Z.mod_add by lia. rewrite Z.mod_small by lia. lia.
 Qed.
 
-Theorem fine_bin_label fch1 cbw start_chan L c m : (0 < L)%Z -> (L mod 2 = 0)%Z -> (0 <= m < L)%Z ->
+Theorem fine_bin_label fch1 cbw start_chan L c m : (0 < L)%Z -> (0 <= m < L)%Z ->
   fine_label fch1 cbw start_chan L (c * L + shift L m)
   == coarse_centre fch1 cbw start_chan c + zq (bin_offset L m) * (cbw / zq L).
 Proof.
-  intros HL He Hm. destruct (shift_offset L m HL He Hm) as [Hs _]. rewrite Hs.
+  intros HL Hm. destruct (shift_offset L m HL Hm) as [Hs _]. rewrite Hs.
   unfold fine_label, coarse_centre, zq.
+  assert (HLq : ~ inject_Z L == 0).
+  { intros E. unfold Qeq in E. cbn in E. lia. }
+  rewrite !inject_Z_plus, !inject_Z_mult. field. exact HLq.
+Qed.
+(* for even L the first fine bin of a channel is half a channel below its centre *)
+Theorem fine_label_even fch1 cbw start_chan L g : (0 < L)%Z -> (L mod 2 = 0)%Z ->
+  fine_label fch1 cbw start_chan L g == (fch1 + zq start_chan * cbw - cbw / 2) + zq g * (cbw / zq L).
+Proof.
+  intros HL He. unfold fine_label, zq.
   assert (H2 : (L = 2 * (L / 2))%Z) by (pose proof (Z.div_mod L 2 ltac:(lia)); lia).
   assert (HLq : ~ inject_Z L == 0).
   { intros E. unfold Qeq in E. cbn in E. lia. }
-  rewrite !inject_Z_plus, !inject_Z_mult.
   assert (Hh : inject_Z (L / 2) == inject_Z L / 2).
   { rewrite H2 at 2. rewrite inject_Z_mult. change (inject_Z 2) with 2. field. }
   rewrite Hh. field. exact HLq.
